@@ -121,6 +121,7 @@ def run_plan(pid, tier, seed, extra_cov=None, t0=None):
     consts_by_class = {}
     script_by_run = {}
     twin_of = {}
+    group_of = {}
     run = 0
     nbeh = 0
     distinct = set()
@@ -176,6 +177,8 @@ def run_plan(pid, tier, seed, extra_cov=None, t0=None):
                 sc = api.make_script(run, bb, store, conc)
                 if plan.get("decode"):
                     sc["decode"] = True
+                if plan.get("matrix"):
+                    group_of[run + 0] = C.sha([bb, conc])     # same history, same concretisation, another configuration
                 scripts[run] = sc
                 classes[run] = ckey
                 script_by_run[run] = sc
@@ -239,10 +242,16 @@ def run_plan(pid, tier, seed, extra_cov=None, t0=None):
         rejections.extend(rej)
     # 6. attribute
     accepted_set_rejected_runs = {r["run"] for r in rejections}
+    rej_sig = {r["run"]: (r["pos"], tuple(sorted(r.get("classes", [r["cls"]])))) for r in rejections}
     for rej in rejections:
         sc = script_by_run[rej["run"]]
         prop = api.attribute(rej, sc["steps"])
         props = api.attribute_all(rej, sc["steps"])
+        # C13: the same history under another configuration is accepted (or rejected elsewhere): the observable
+        # results depend on the configuration
+        g = group_of.get(rej["run"])
+        if g is not None and any(rej_sig.get(o) != rej_sig[rej["run"]] for o in group_of if group_of[o] == g and o != rej["run"] and o in runs):
+            props.add("C13")
         # differential attribution through twins
         is_twin = rej["run"] in twin_of.values()
         if not is_twin and rej["run"] in twin_of and twin_of[rej["run"]] not in accepted_set_rejected_runs \
